@@ -119,6 +119,31 @@ def gen_case(rng, tier, idx):
                                                     "vol": [1, 3], "ttl": [2, 5]}])
         for s_ in cfg["simulation"]["sessions"]:
             s_["iterationSteps"] = max(s_["iterationSteps"], 25)
+    if idx % 11 == 4 and len(mk) >= 2:
+        # relay: ONE rule over all markets with a line that almost any fill crosses and a long halt; a halt that is
+        # cut short by the end of the first session is followed, early in the next session, by a halt of another
+        # target (in either declaration order of the markets)
+        for k in [k for k in cfg if k.startswith("HALT")]:
+            for s_ in cfg["simulation"]["sessions"]:
+                if k in s_.get("events", []):
+                    s_["events"].remove(k)
+            del cfg[k]
+        cfg["HALT0"] = {"class": "TradingHaltRule", "targetMarkets": rng.sample(mk, len(mk)),
+                        "triggerChangeRate": rng.choice([0.0, 0.0, 0.002]), "haltingTimeLength": rng.choice([5, 8])}
+        ss = cfg["simulation"]["sessions"]
+        del ss[2:]
+        while len(ss) < 2:
+            ss.append(dict(ss[0], sessionName=len(ss)))
+        ss[0].update({"iterationSteps": rng.choice([4, 7, 9]), "withOrderPlacement": True, "withOrderExecution": True})
+        ss[1].update({"iterationSteps": rng.choice([20, 30]), "withOrderPlacement": True, "withOrderExecution": True})
+        for s_ in ss:
+            s_.pop("events", None)
+        ss[0]["events"] = ["HALT0"]
+        if rng.random() < 0.5:
+            # (an index market has to stay behind its components)
+            ms = cfg["simulation"]["markets"]
+            spots_ = [m_ for m_ in ms if cfg[m_]["class"] != "IndexMarket"]
+            cfg["simulation"]["markets"] = spots_[::-1] + [m_ for m_ in ms if cfg[m_]["class"] == "IndexMarket"]
     from ..runnerdrive import add_first_attempts, split_extra_targets
 
     split_extra_targets(rng, cfg, 0.15)
